@@ -1395,6 +1395,13 @@ func (e *Entry) Find(name string) *Entry {
 			if m != e.Node.(*Module) {
 				e = ToEntry(m)
 			}
+		} else if sm, ok := e.Node.(*Module); ok && sm.Kind() == "submodule" {
+			// Without a prefix the path is rooted in the module the
+			// text belongs to, which for a submodule is not its own
+			// entry tree.
+			if m := module(sm); m != nil {
+				e = ToEntry(m)
+			}
 		}
 	}
 
